@@ -250,7 +250,7 @@ fn check_src(ctx: &mut Ctx, section: &str, src: &str, line: usize, class: &str) 
 
 pub fn run(ctx: &mut Ctx) {
     let n = ctx.nshards as u32;
-    drive(ctx, "lines", ctx.tier.pick(40_000, 1_000_000) / n, 8, 64, |ctx, bytes| {
+    drive(ctx, "lines", ctx.tier.pick(160_000, 2_000_000) / n, 8, 64, |ctx, bytes| {
         let b = build(bytes);
         ctx.case(hash_str(&b.src), b.nontrivial);
         ctx.class(&format!("ctx:{}", b.ctx));
